@@ -224,6 +224,12 @@ func FieldAtoms(depth int) []Atom {
 				// defaults a float32 cannot hold, of tiny / huge magnitude, and integral
 				defs = append(defs, Dbl(3.141592653589793), Dbl(0.000001), Dbl(16777217), Dbl(5e21), Dbl(4))
 			}
+			if s.Type.Name == "list" && s.Type.Val.Name == "i32" {
+				defs = append(defs, LList(Int(0), Int(0), Int(0)), LList(Int(1), Int(2), Int(1))) // repeated members are members
+			}
+			if s.Type.Name == "list" && s.Type.Val.Name == "string" {
+				defs = append(defs, LList(Str("a"), Str("b"), Str("a")))
+			}
 			for di, d := range defs {
 				f := &Field{ID: 1, Name: "f", Req: req, Type: s.Type, Default: d}
 				st := &Decl{Struct: &Struct{Kind: "struct", Name: "Holder", Fields: []*Field{f, {ID: 2, Name: "tail", Req: "default", Type: T("i32")}}}}
@@ -427,6 +433,30 @@ func DeclAtoms() []Atom {
 		&Decl{Service: &Service{Name: "Child", Extends: "base.BaseSvc", Methods: []*Method{{Name: "childPing"}}}})
 	add("service/include-types", "service", true, nil,
 		&Decl{Service: &Service{Name: "Svc", Methods: []*Method{{Name: "get", Ret: T("base.Thing"), Args: []*Field{{ID: 1, Name: "k", Req: "default", Type: T("base.Kind")}, {ID: 2, Name: "i", Req: "default", Type: T("base.id2")}}, Throws: []*Field{{ID: 1, Name: "e", Req: "default", Type: T("base.BaseErr")}}}}}})
+	// a method that throws a typedef, declared in an included file, of an exception of that file
+	// (parser only: generators have known trouble with typedefs of structs, see C11's findings)
+	{
+		errs := &File{Name: "errs.frugal", Decls: []*Decl{{NS: &NS{Scope: "go", Value: "errs"}}, {NS: &NS{Scope: "java", Value: "errs"}},
+			{Struct: &Struct{Kind: "exception", Name: "Failure", Fields: []*Field{{ID: 1, Name: "why", Req: "default", Type: T("string")}}}},
+			{Typedef: &Typedef{Name: "Fault", Type: T("Failure")}}}}
+		f := &File{Name: "main.frugal", Decls: []*Decl{{NS: &NS{Scope: "go", Value: "mainpkg"}}, {NS: &NS{Scope: "java", Value: "mainpkg"}}, {Include: "errs.frugal"},
+			{Struct: &Struct{Kind: "exception", Name: "Local", Fields: []*Field{{ID: 1, Name: "why", Req: "default", Type: T("string")}}}},
+			{Typedef: &Typedef{Name: "LocalAlias", Type: T("Local")}},
+			{Service: &Service{Name: "Store", Methods: []*Method{
+				{Name: "put", Args: []*Field{{ID: 1, Name: "k", Req: "default", Type: T("string")}}, Throws: []*Field{{ID: 1, Name: "f", Req: "default", Type: T("errs.Fault")}}},
+				{Name: "get", Ret: T("i32"), Throws: []*Field{{ID: 1, Name: "a", Req: "default", Type: T("LocalAlias")}, {ID: 2, Name: "b", Req: "default", Type: T("errs.Failure")}}}}}}}}
+		out = append(out, Atom{Name: "service/throws-typedef-of-exception", Class: "parse-only", Prog: &Program{Files: []*File{f, errs}}})
+	}
+	// a struct literal constant that sets an optional scalar field which has a default
+	add("const/struct-literal-sets-optional-field-with-default", "const", false, []*Decl{
+		{Struct: &Struct{Kind: "struct", Name: "Retry", Fields: []*Field{{ID: 1, Name: "attempts", Req: "optional", Type: T("i32"), Default: Int(3)}, {ID: 2, Name: "label", Req: "optional", Type: T("string"), Default: Str("x")}, {ID: 3, Name: "n", Req: "default", Type: T("i32")}}}}},
+		&Decl{Const: &Const{Name: "PATIENT", Type: T("Retry"), Value: LMap([]*Lit{Str("attempts"), Str("label"), Str("n")}, []*Lit{Int(10), Str("slow"), Int(1)})}})
+	// method names that are equal when case is ignored (valid: they differ after the first letter)
+	add("service/method-names-differ-in-case", "service", false, nil,
+		&Decl{Service: &Service{Name: "Svc", Methods: []*Method{{Name: "lookUp", Ret: T("i32"), Args: []*Field{arg(1, "i32")}}, {Name: "lookup", Ret: T("string"), Args: []*Field{arg(1, "string")}}}}})
+	add("service/method-names-differ-in-case-across-extends", "service", false, nil,
+		&Decl{Service: &Service{Name: "Parent", Methods: []*Method{{Name: "getEntry", Ret: T("i32"), Args: []*Field{arg(1, "i32")}}}}},
+		&Decl{Service: &Service{Name: "Child", Extends: "Parent", Methods: []*Method{{Name: "getentry", Ret: T("string")}}}})
 	// the include is referenced from one position of one method only (import lists are computed per service)
 	for _, pos := range []struct {
 		n   string
